@@ -204,6 +204,38 @@ def run(ctx, res):
             reqs += [("tree_used_set", o), ("tree_missing", o)]
             if after is not None:
                 reqs.append(("tree_add_missing", [o, kn, sorted(missing, reverse=bool(i % 2))]))
+        # ---- API-built calendars: a property added several times, the earlier entries without any TZID (UTC, floating, dates)
+        import zoneinfo
+        from datetime import date, timezone
+        for i in range(120 if ctx.big else 30):
+            cal = icalendar.Calendar()
+            ev = icalendar.Event()
+            cal.add_component(ev)
+            want = set()
+            for name in rng.sample(["rdate", "exdate", "rdate", "comment"], rng.randrange(1, 4)):
+                for _k in range(rng.randrange(1, 4)):
+                    kind = rng.choice(["utc", "naive", "date", "zoned", "zoned"])
+                    if name == "comment":
+                        ev.add(name, "c", encode=rng.random() < 0.7)
+                        continue
+                    d0 = datetime(2020, rng.randrange(1, 13), rng.randrange(1, 28), 10)
+                    if kind == "utc":
+                        v = [d0.replace(tzinfo=timezone.utc)]
+                    elif kind == "naive":
+                        v = [d0]
+                    elif kind == "date":
+                        v = [d0.date()]
+                    else:
+                        z = rng.choice(KNOWN_IDS[:5])
+                        v = [d0.replace(tzinfo=zoneinfo.ZoneInfo(z))]
+                        want.add(z)
+                    ev.add(name, v)
+            res.evaluations += 1
+            res.dist("API-built")
+            used = guard(cal.get_used_tzids)
+            if used != sorted(want):
+                res.fail("C18 used (API-built calendar): get_used_tzids differs from the zones of the values added",
+                         T.impl_ser(cal), observed=used, expected=sorted(want))
         outs = M.batch(reqs) if M else None
         if outs is not None:
             pos = 0
